@@ -43,7 +43,8 @@ Failing(e) ==
        Cl(P(e, "C04.centroidBound: at most delta + 3 centroids after unit-weight inserts"),
           gp.unit => o.ncent * Hdr.dd <= Hdr.dn + 3 * Hdr.dd) \cup
        (IF ~gp.any THEN
-          Cl(P(e, "C15.emptyReturnsNaNandZero"), (\A k \in 1 .. Len(o.q) : o.q[k] = NAN) /\ (\A k \in 1 .. Len(o.cdf) : o.cdf[k] = 0))
+          Cl(P(e, "C15.emptyReturnsNaNandZero"), (\A k \in 1 .. Len(o.q) : o.q[k] = NAN) /\ (\A k \in 1 .. Len(o.cdf) : o.cdf[k] = 0)
+                                                   /\ o.cdf_inf = <<0, 0>>)
         ELSE
           Cl(P(e, "C15.quantileMonotone"), Mono(o.q)) \cup
           Cl(P(e, "C15.quantileWithinMinMax"), \A k \in 1 .. Len(o.q) : o.q[k] >= gp.mn * FP - Tol /\ o.q[k] <= gp.mx * FP + Tol) \cup
@@ -53,6 +54,7 @@ Failing(e) ==
           Cl(P(e, "C15.cdfWithin01"), \A k \in 1 .. Len(o.cdf) : o.cdf[k] >= 0 /\ o.cdf[k] <= FP) \cup
           Cl(P(e, "C15.cdfZeroBelowMinOneFromMax"),
              \A k \in 1 .. Len(o.cdf) : ((XLo2 + k - 1) < 2 * gp.mn => o.cdf[k] = 0) /\ ((XLo2 + k - 1) >= 2 * gp.mx => o.cdf[k] = FP)) \cup
+          Cl(P(e, "C15.cdfAtInfinity: cdf(-inf) = 0 and cdf(+inf) = 1"), o.cdf_inf = <<0, FP>>) \cup
           Cl(P(e, "C15.cdfOfQuantileIsQ within the digest's resolution"),
              \A k \in 1 .. Len(o.cq) : LET q == ((k - 1) * FP) \div QD IN
                  \* cdf(quantile(q)) lies in [q, q + largest weight share of centroids sharing one mean];
